@@ -214,15 +214,6 @@ func runOpDecision(c *core.Ctx) {
 			ref: func(a dtAtoms) bool { return a.I("idx") != a.I("len(sets)") && a.B("it.Done()") }},
 		{fn: ".SetRefinement", key: "keeps-satisfying", why: "{x \\in S : P(x)} keeps exactly the elements satisfying P", find: builderSet, bools: []string{"it.Done()", "pred(elem)"},
 			ref: func(a dtAtoms) bool { return !a.B("it.Done()") && a.B("pred(elem)") }},
-		{fn: ".MakeFunctionSet", key: "always-built-from-the-domain", why: "[S -> T] is built by giving every element of S the codomain T, for every S and T: [{} -> T] is {<<>>} (one function, the empty one) even when T is empty, and no special case may short-cut that",
-			find: func(info *types.Info, n ast.Node) bool {
-				r, ok := n.(*ast.ReturnStmt)
-				if !ok || len(r.Results) != 1 {
-					return false
-				}
-				call, isCall := an.Unparen(r.Results[0]).(*ast.CallExpr)
-				return isCall && an.CalleeFunc(info, call) != nil && an.CalleeFunc(info, call).Name() == "MakeRecordSet"
-			}, ref: func(a dtAtoms) bool { return true }},
 		{fn: ".Choose", key: "returns-first-satisfying", why: "CHOOSE returns an element satisfying the predicate", find: returnsNextElem, bools: []string{"it.Done()", "pred(elemV)"},
 			ref: func(a dtAtoms) bool { return !a.B("it.Done()") && a.B("pred(elemV)") }},
 		{fn: ".SetComprehension", key: "emits-at-full-depth", why: "one result per complete tuple of bound values", find: builderSet, ints: map[string]string{"idx": "", "len(sets)": ""},
@@ -347,6 +338,38 @@ func runOpDecision(c *core.Ctx) {
 			bools: []string{"rawResult<=math.MaxInt32", "rawResult>=math.MinInt32"}, ref: func(a dtAtoms) bool { return a.B("rawResult<=math.MaxInt32") && a.B("rawResult>=math.MinInt32") }},
 	)
 	runDecisionRows(c, e, an.PkgTLA, "", rows)
+	// [S -> T] is built by giving every element of S the codomain T, for every S and T: [{} -> T] is {<<>>} (one function,
+	// the empty one) even when T is empty. Every return of MakeFunctionSet hands on what MakeRecordSet built from the pairs
+	// collected over the domain; no special case short-cuts that.
+	if fn := mustFunc(c, e, an.PkgTLA, "MakeFunctionSet"); fn != nil {
+		info := fn.Pkg.Info
+		bad := ""
+		n := 0
+		ast.Inspect(fn.Body(), func(m ast.Node) bool {
+			if _, isLit := m.(*ast.FuncLit); isLit {
+				return false
+			}
+			r, ok := m.(*ast.ReturnStmt)
+			if !ok {
+				return true
+			}
+			n++
+			if len(r.Results) != 1 {
+				bad = "a return without a value"
+				return true
+			}
+			call, isCall := an.Unparen(an.ResolveLocal(info, fn.Body(), r.Results[0])).(*ast.CallExpr)
+			if !isCall || an.CalleeFunc(info, call) == nil || an.CalleeFunc(info, call).Name() != "MakeRecordSet" {
+				bad = "a path returns " + an.ExprString(r.Results[0]) + " instead of the record set built from the domain"
+			}
+			return true
+		})
+		if n == 0 {
+			bad = "no return found"
+		}
+		c.Check(bad == "", ".MakeFunctionSet:always-built-from-the-domain", fn.Pos(), "every return hands on MakeRecordSet(pairs over the domain)",
+			bad+": [{} -> {}] is {<<>>}, not {}, and [S -> {}] is empty only because no record can be built - a short cut on an empty operand answers one of the two wrongly")
+	}
 }
 
 // singleReturnLast: the result expression of the function's last statement if it is `return E`.
